@@ -1908,4 +1908,98 @@ theorem step_link (s : Sys F) (e : Ev) :
   | crit d => exact ⟨hsame _ rfl, rfl, fun h => h⟩
   | failNext cid => exact ⟨hsame _ rfl, rfl, fun h => h⟩
 
+/-! ## 12. Extras: REG2 on the wire, accounting of live links, REG_ERR recognition -/
+
+theorem hkLinksGo_wire_reg2 (classic : Bool) (now : Nat) (ls : List (FLink F)) (i : Nat) (reg : Reg.Reg)
+    (hp : reg.pending = none) (j : Nat) (l : FLink F) (hl : ls[j]? = some l)
+    (hto : l.isTimedOut now = true) (hsa : l.shouldAttemptReconnect now = true) :
+    (l.core.connId, Reg.buildReg2 reg) ∈ (hkLinksGo classic now ls i reg).2.2 := by
+  induction ls generalizing i j with
+  | nil => simp at hl
+  | cons x rest ih =>
+    rw [hkLinksGo_cons]
+    have hreg : hkReg now reg i x = reg := by
+      unfold hkReg; rw [hp]; simp
+    rw [hreg]
+    dsimp only
+    cases j with
+    | zero =>
+      simp at hl; subst hl
+      apply List.mem_append_left
+      unfold hkWire
+      rw [if_pos hto, if_pos hsa, hp]
+      simp
+    | succ j =>
+      apply List.mem_append_right
+      exact ih (i + 1) j (by simpa using hl)
+
+/-- Accounting fields a housekeeping tick never touches on a link that is not timed out. -/
+def Acct (l l' : FLink F) : Prop :=
+  l'.queue = l.queue ∧ l'.core.log = l.core.log ∧ l'.core.inFlight = l.core.inFlight ∧
+  l'.core.connected = l.core.connected ∧ l'.core.connId = l.core.connId ∧ l'.established = l.established ∧
+  l'.core.lastReceived = l.core.lastReceived
+
+theorem Acct.refl (l : FLink F) : Acct l l := ⟨rfl, rfl, rfl, rfl, rfl, rfl, rfl⟩
+theorem Acct.trans {a b c : FLink F} (h1 : Acct a b) (h2 : Acct b c) : Acct a c := by
+  obtain ⟨a1, a2, a3, a4, a5, a6, a7⟩ := h1
+  obtain ⟨b1, b2, b3, b4, b5, b6, b7⟩ := h2
+  exact ⟨b1.trans a1, b2.trans a2, b3.trans a3, b4.trans a4, b5.trans a5, b6.trans a6, b7.trans a7⟩
+
+theorem acct_keepalive (l : FLink F) (now : Nat) : Acct l (l.keepalivePacket now).1 := by
+  unfold FLink.keepalivePacket; exact ⟨rfl, rfl, rfl, rfl, rfl, rfl, rfl⟩
+
+theorem acct_recovery (l : FLink F) (now : Nat) : Acct l (l.performWindowRecovery now) := by
+  unfold FLink.performWindowRecovery; exact ⟨rfl, rfl, rfl, rfl, rfl, rfl, rfl⟩
+
+theorem acct_updatePhase (l : FLink F) (now : Nat) : Acct l (l.updatePhase now) := by
+  unfold FLink.updatePhase
+  dsimp only
+  repeat' split
+  all_goals exact ⟨rfl, rfl, rfl, rfl, rfl, rfl, rfl⟩
+
+theorem aliveLink_accounting (classic : Bool) (now : Nat) (l : FLink F) : Acct l (aliveLink classic now l) := by
+  unfold aliveLink
+  dsimp only
+  have h1 : Acct l (if l.needsKeepalive now then (l.keepalivePacket now).1 else l) := by
+    split
+    · exact acct_keepalive l now
+    · exact Acct.refl l
+  generalize (if l.needsKeepalive now then (l.keepalivePacket now).1 else l) = l1 at h1 ⊢
+  have h2 : Acct l1 (if l1.needsRttMeasurement now then (l1.keepalivePacket now).1 else l1) := by
+    split
+    · exact acct_keepalive l1 now
+    · exact Acct.refl l1
+  generalize (if l1.needsRttMeasurement now then (l1.keepalivePacket now).1 else l1) = l2 at h2 ⊢
+  have h3 : Acct l2 (if !classic then l2.performWindowRecovery now else l2) := by
+    split
+    · exact acct_recovery l2 now
+    · exact Acct.refl l2
+  generalize (if !classic then l2.performWindowRecovery now else l2) = l3 at h3 ⊢
+  have h4 : Acct l3 { l3 with bitrate := l3.bitrate.calculate now } := ⟨rfl, rfl, rfl, rfl, rfl, rfl, rfl⟩
+  have h5 := acct_updatePhase { l3 with bitrate := l3.bitrate.calculate now } now
+  have h6 : Acct ((({ l3 with bitrate := l3.bitrate.calculate now } : FLink F)).updatePhase now)
+      ((({ l3 with bitrate := l3.bitrate.calculate now } : FLink F)).updatePhase now).recomputeBatchRegime :=
+    ⟨rfl, rfl, rfl, rfl, rfl, rfl, rfl⟩
+  exact ((((h1.trans h2).trans h3).trans h4).trans h5).trans h6
+
+theorem regEvent_of_type (r : Reg.Reg) (idx : Nat) (buf : Reg.Bytes) (now : Nat) :
+    ((Reg.processRegistrationPacket r idx buf now).2 = some .regErr ↔ Codec.getPacketTypeS buf = some 37392) ∧
+    ((Reg.processRegistrationPacket r idx buf now).2 = some .reg3 ↔ Codec.getPacketTypeS buf = some 37378) := by
+  unfold Reg.processRegistrationPacket
+  simp only [Proto.SRTLA_TYPE_REG_NGP_eq, Proto.SRTLA_TYPE_REG2_eq, Proto.SRTLA_TYPE_REG3_eq,
+    Proto.SRTLA_TYPE_REG_ERR_eq]
+  cases h : Codec.getPacketTypeS buf with
+  | none => simp
+  | some t =>
+    dsimp only
+    by_cases h1 : t = 37393
+    · simp [h1]
+    by_cases h2 : t = 37377
+    · simp [h2]
+    by_cases h3 : t = 37378
+    · simp [h3]
+    by_cases h4 : t = 37392
+    · simp [h4]
+    simp [h1, h2, h3, h4]
+
 end Srtla.Hk
